@@ -1,6 +1,5 @@
 (* C06 statements of worker prove3-cong, in Properties form (test-compiled against /verif/coq as a stand-alone file).
-   To merge into coq/Properties/C06.v: add the Require line's new modules (PnCong1 PnCong2 PnCong3 PnCong4 [DfpnRep*], Refine
-   Reach1 Alloc Preserve1) and paste the blocks; the two `_partial` statements of block 4 can stay as the conditional forms.
+   To merge into coq/Properties/C06.v: add the Require line's new modules (PnCong1..5, DfpnRep1, Refine Reach1 Alloc Preserve1) and paste the blocks; the two `_partial` statements of block 4 can stay as the conditional forms.
 
    Block 4 without `_partial`.  The hypothesis equal_congruent (positions that Position.Equal identifies have the same
    history-free value) is false for arbitrary records (Position.Equal does not compare reserves, tie-break flag or ply
@@ -10,7 +9,8 @@
    cinv is preserved by every accepted move and holds for every replay from tak.New with at most 64 pieces (all
    configurations of sizes 3..6 with the default counts, any custom configuration up to 64 pieces). *)
 From Coq Require Import NArith ZArith List Bool.
-Require Import Board Move Refine GameOver Preserve1 Reach1 Alloc AndOr AndOrS Pn PnRun PnFacts PnRunFacts PnCong1 PnCong2 PnCong3 PnCong4.
+Require Import Board Move Refine GameOver Eval Search Preserve1 Reach1 Alloc AndOr AndOrS Pn PnRun PnFacts PnRunFacts Dfpn DfpnFacts DfpnFactsL
+  PnCong1 PnCong2 PnCong3 PnCong4 PnCong5 DfpnRep1.
 Require Import Generated.Consts.
 Import ListNotations.
 Open Scope N_scope.
@@ -79,3 +79,63 @@ Print Assumptions C06_pn_disproven_attractor_reachable.
 
 (* the general-configuration forms over prove_pn (any pcfg) are PnCong4.pn_proven_rules_cinv / pn_disproven_attractor_cinv;
    non-vacuity: PnCong4.ex_proven_rules, ex_disproven_attractor (the roots of PnRunFacts' examples are replays from tak.New). *)
+
+
+(* ===================== Block 6: DFPN `disproven` for runs WITH threefold-repetition events =====================
+   Full statement (still open, probably FALSE for a reused solver - see notes/prove3_cong_report.txt):
+       dfpn p = (Disproven, m) -> ~ Wins att [] p          for every run, whatever the counters say.
+   Proved, in addition to 6 (repetition counter 0): a run that took no bound from the transposition table (DFPNStats.Hits
+   unchanged - compared with the solver on every run like Repetition) reports `disproven` only where the attacker has no
+   forced win, WITH repetitions, for ANY contents of the table (so also for a reused solver, any earlier attacker).
+   The hypothesis on hashes is the depth-indexed no-collision (6c shows that it and the form used in 5/6 follow from
+   "equal hash implies Position.Equal" on positions of one game).  Together: the only runs whose `disproven` is not
+   covered have BOTH Repetition > 0 and Hits > 0 - the graph-history interaction proper.
+   MISSING for the full statement: bounds stored while an ancestor on the stack was still open are conditional on that
+   ancestor (DfpnRep1.CL); nothing in the solver invalidates them when the ancestor leaves the stack. *)
+Theorem C06_dfpn_disproven_sound_nohit_partial :
+  forall (basis : list N) (aw : bool) (Sp : position -> Prop),
+    (forall p m q, Sp p -> terminal aw p = None -> In m (all_moves p) -> dmv basis p m = Ok q -> Sp q) ->
+    (forall p, Sp p -> size p <= 8) ->
+    (forall p q, Sp p -> Sp q -> hash_of p = hash_of q ->
+       forall n, wn position (succs basis) (terminal aw) (attp aw) n p = wn position (succs basis) (terminal aw) (attp aw) n q) ->
+    (forall p, Sp p -> terminal aw p = None -> all_moves p <> []) ->
+    (forall p, Sp p -> terminal aw p = None -> solve p <> None -> attp aw p = false ->
+       exists q, In q (succs basis p) /\ terminal aw q = Some false) ->
+    forall lfuel dfuel entries g s e w,
+      Sp g -> prove basis aw lfuel dfuel entries g = (s, e, w) -> ds_hits (dst s) = 0 -> result_of aw g e = 2 ->
+      forall n, wn position (succs basis) (terminal aw) (attp aw) n g = false.
+Proof. exact dfpn_disproven_sound_nohit. Qed.
+Print Assumptions C06_dfpn_disproven_sound_nohit_partial.
+
+(* 6b. the same for Prove() on a solver in any state (table and killers from earlier calls; the caller resets the stack) *)
+Theorem C06_dfpn_disproven_sound_nohit_from_partial :
+  forall (basis : list N) (aw : bool) (Sp : position -> Prop),
+    (forall p m q, Sp p -> terminal aw p = None -> In m (all_moves p) -> dmv basis p m = Ok q -> Sp q) ->
+    (forall p, Sp p -> size p <= 8) ->
+    (forall p q, Sp p -> Sp q -> hash_of p = hash_of q ->
+       forall n, wn position (succs basis) (terminal aw) (attp aw) n p = wn position (succs basis) (terminal aw) (attp aw) n q) ->
+    (forall p, Sp p -> terminal aw p = None -> all_moves p <> []) ->
+    (forall p, Sp p -> terminal aw p = None -> solve p <> None -> attp aw p = false ->
+       exists q, In q (succs basis p) /\ terminal aw q = Some false) ->
+    forall lfuel dfuel s0 g s e w,
+      Sp g -> dstack s0 = [] -> prove_from basis aw lfuel dfuel s0 g = (s, e, w) ->
+      ds_hits (dst s) = ds_hits (dst s0) -> result_of aw g e = 2 ->
+      forall n, wn position (succs basis) (terminal aw) (attp aw) n g = false.
+Proof. exact dfpn_disproven_sound_nohit_from. Qed.
+Print Assumptions C06_dfpn_disproven_sound_nohit_from_partial.
+
+(* 6c. NoCollisionOn Sp (both forms) from "equal hash implies Position.Equal" for positions of one game *)
+Theorem C06_nocollision_from_equal :
+  forall c b aw (Sp : position -> Prop),
+  (forall p, Sp p -> cinv c b p) ->
+  (forall p q, Sp p -> Sp q -> hash_of p = hash_of q -> pos_equal p q = true) ->
+  (forall p q, Sp p -> Sp q -> hash_of p = hash_of q ->
+     (W gen_basis aw p <-> W gen_basis aw q) /\ to_move_white p = to_move_white q /\ terminal aw p = terminal aw q) /\
+  (forall p q, Sp p -> Sp q -> hash_of p = hash_of q ->
+     forall n, wn position (succs gen_basis) (terminal aw) (attp aw) n p = wn position (succs gen_basis) (terminal aw) (attp aw) n q).
+Proof. exact nocollision_from_equal. Qed.
+Print Assumptions C06_nocollision_from_equal.
+
+(* non-vacuity: DfpnRep2.dfpn_disproven_sound_nohit_applies (the enumerated one-stone game) and, with the position sets by
+   representatives of DfpnRep3, DfpnRep4.dfpn_proven_sound_cyclic / dfpn_disproven_sound_nohit_cyclic: a game with slide
+   cycles (3x3, stone + capstone per side, 657 classes up to the ply counter), actual runs of the model. *)
